@@ -1,4 +1,4 @@
-(* C16 driver.  argv[1] = cases, argv[2] = "-" (unused), argv[3] = variant: repaired | defective.
+(* C16 driver.  argv[1] = cases, argv[2] = "-" (unused).  One model: what /repo HEAD does.
    One case per line:
      pair <oA> <oB> <ai> <am> <ar> <az> <aw> <bi> <bm> <br> <bz> <bw> <op>...
         op  sX:body:sid:t     X's protocol machine submits a message
@@ -175,8 +175,7 @@ let () =
       | "full" :: rest -> print_endline (run_full rest)
       | ["sccrqdup"] ->
         (* the second copy of an SCCRQ is a duplicate for the control connection it opened: the receive step rejects
-           it (ns <> nr), the protocol machine sees the SCCRQ once -> one tunnel.  defective = today: the SCCRQ path
-           has no receive step in front of the handler, every copy opens a tunnel *)
+           it (ns <> nr), the protocol machine sees the SCCRQ once -> one tunnel.  (before e6d010e every copy opened a tunnel) *)
         let data ns nr = { k_body = Some (zi 1); k_sid = Z0; k_ns = zi ns; k_nr = zi nr } in
         let e0 = new_endpoint Z0 Z0 Z0 Z0 (zi 16) Z0 Z0 in
         let handed e = match ep_deliver false e (data 0 0) Z0 None with (e', ODeliver (h, _, _)) -> (e', h) | (e', _) -> (e', false) in
@@ -186,8 +185,8 @@ let () =
         Printf.printf "sccrqdup tunnels=%d\n" count
       | ["stopccn"] ->
         (* SCCRQ (reply SCCRP), SCCCN, StopCCN (handler removes the tunnel) through the dispatch rule; the owed
-           acknowledgement is sent at teardown (repaired: FlushAck = a Tick at the ZLB deadline); defective =
-           today: the runner is stopped with the ZLB timer armed, nobody ticks again *)
+           acknowledgement is sent at teardown (FlushAck = a Tick at the ZLB deadline; before e462f04 the runner
+           was stopped with the ZLB timer armed and nobody ticked again) *)
         let data ns nr = { k_body = Some (zi 1); k_sid = Z0; k_ns = zi ns; k_nr = zi nr } in
         let msg ns nr rep rm = NMsg ({ m_tid_ok = true; m_pkt = data ns nr; m_replies = rep; m_removes = rm }, Z0) in
         let n0 = { n_known = true; n_ep = new_endpoint Z0 Z0 Z0 Z0 (zi 16) Z0 Z0 } in
@@ -217,12 +216,12 @@ let () =
         Printf.printf "idle acked=%d\n" (if !acked_at >= 0 && !acked_at <= th + 200 + 500 + 50 then 1 else 0)
       | ["overlap"] ->
         (* channel operations are atomic steps in the model: while Tick is inside the channel, Recv has to wait;
-           defective = today's unsynchronised goroutines (runner Tick / punt Recv / Hello Send) *)
+           (before 63cd1b1 the runner's Tick, the punt consumer's Recv and the Hello Send were unsynchronised) *)
         print_endline (if zlb_recv then "tick-in-send recv=returned" else "tick-in-send recv=blocked")
       | ["rws"; role; w; k; a] ->
         (* establishment with an advertised Receive Window Size (see the dispatch harness).
-           repaired: the window is narrowed to the advertised value (4 when absent) as soon as the peer's AVPs are
-           known; defective: it stays at the 16 of runner.go startTunnelRunner *)
+           the window is narrowed to the advertised value (4 when absent) as soon as the peer's AVPs are
+           known (before 3558639 it stayed at the 16 of runner.go startTunnelRunner) *)
         let adv = if w = "-" then 4 else ios w in
         let setw e = if zlb_recv then e else fst (ep_setwin e (zi adv)) in
         let data ns nr = { k_body = Some (zi 1); k_sid = Z0; k_ns = zi ns; k_nr = zi nr } in
